@@ -7,6 +7,10 @@
  *   adopted                                                  battery on a shared-memory adopted (PROT_READ) copy
  *   readers <T> <rounds> <mode> <seed>     mode 0: after load; 1: after modify + hwloc_topology_refresh; 2: after modify, NO refresh
  *   indep <T> <rounds> <seed>              T threads, each an independent init/load/modify/export/destroy history
+ *   calls sched|free <T> <seed>            T threads, each running its own history of calls of the alphabet of spec/IndepCalls.tla
+ *     c <tid> <op> <a> <b>                 ... one line per call, in the order of the generated schedule ...
+ *   endcalls                               the histories run three times: single-threaded one after the other (reference), then in T
+ *                                          threads - "sched": one call at a time in the order of the lines; "free": free-running
  */
 #include "hwv_common.h"
 #include <hwloc.h>
@@ -22,15 +26,16 @@
 /* ---------- hook events ---------- */
 #define MAXT 64
 #define MAXEV 4096
-struct hev { char name[28]; unsigned long a, b; };
+struct hev { char name[28]; unsigned long a, b; int tid, call; };
 static __thread int my_tid = -1;                 /* -1: main thread */
+static __thread int cur_tid = -1, cur_call = -1; /* the history and the call of it that the calling thread is executing (phase D) */
 static struct hev tev[MAXT + 1][MAXEV]; static unsigned ntev[MAXT + 1];     /* per thread (index tid+1), written by that thread only */
 static struct hev regev[1 << 16]; static volatile unsigned nregev;          /* registry events: emitted under hwloc's components mutex */
 void hwloc_verif_event(const char *name, unsigned long a, unsigned long b);
 void hwloc_verif_event(const char *name, unsigned long a, unsigned long b) {
   if (!strncmp(name, "comp_", 5)) {
     unsigned k = nregev;
-    if (k < (1u << 16)) { snprintf(regev[k].name, sizeof regev[k].name, "%s", name); regev[k].a = a; regev[k].b = b; nregev = k + 1; }
+    if (k < (1u << 16)) { snprintf(regev[k].name, sizeof regev[k].name, "%s", name); regev[k].a = a; regev[k].b = b; regev[k].tid = cur_tid; regev[k].call = cur_call; nregev = k + 1; }
   } else {
     int s = my_tid + 1; unsigned k = ntev[s];
     if (k < MAXEV) { snprintf(tev[s][k].name, sizeof tev[s][k].name, "%s", name); tev[s][k].a = a; tev[s][k].b = b; ntev[s] = k + 1; }
@@ -269,11 +274,235 @@ static void do_indep(char *p) {
   out("]}"); out_end();
 }
 
+/* ---------- phase D: independent histories over the alphabet of spec/IndepCalls.tla ---------- */
+#include <hwloc/diff.h>
+#define NSLOT 2
+#define MAXCALLS 1024
+#define SHMLEN ((size_t)4 << 20)
+#define SHMSTRIDE ((size_t)64 << 20)
+#define SKIPPED (-99)                    /* the call could not be made (what it needs does not exist): logged as such, nothing is judged here */
+struct call { int tid; char op[16]; int a, b; };
+struct cres { int ret, err; long n1, n2; uint64_t dg; };
+struct tstate {
+  hwloc_topology_t slot[NSLOT]; int loaded[NSLOT], adopted[NSLOT];
+  hwloc_topology_diff_t diff; char *xbuf; int xbuflen, xfile;
+  char shmpath[320], xpath[320], gpath[320]; char *addr;
+};
+static const char *cvariants[] = { "pack:2 core:2 pu:2", "node:2 core:2 pu:1", "pu:6" };
+static const char garbage_xml[] = "<?xml version=\"1.0\"?>\n<topologydiff refname=\"hwv\">\n <diff type=\"1\" obj_depth=";
+static char scratch_dir[256] = "/var/tmp";
+static char *shm_base;                   /* MAXT address ranges of SHMSTRIDE bytes, far from where the kernel and the allocators map */
+static void find_shm_base(void) {
+  static const uintptr_t hints[] = { 0x240000000000UL, 0x2c0000000000UL, 0x1c0000000000UL, 0x340000000000UL, 0 }; int i;
+  if (shm_base) return;
+  for (i = 0; hints[i]; i++) {
+    void *p = mmap((void *)hints[i], SHMSTRIDE * MAXT, PROT_NONE, MAP_PRIVATE | MAP_ANONYMOUS | MAP_NORESERVE | MAP_FIXED_NOREPLACE, -1, 0);
+    if (p == (void *)hints[i]) { munmap(p, SHMSTRIDE * MAXT); shm_base = p; return; }
+    if (p != MAP_FAILED) munmap(p, SHMSTRIDE * MAXT);
+  }
+}
+static void ts_init(struct tstate *ts, int tid) {
+  FILE *f;
+  memset(ts, 0, sizeof *ts);
+  snprintf(ts->shmpath, sizeof ts->shmpath, "%s/hwv_thr_%d_%d.shm", scratch_dir, (int)getpid(), tid);     /* next to the trace: removed with the scratch directory */
+  snprintf(ts->xpath, sizeof ts->xpath, "%s/hwv_thr_%d_%d.xml", scratch_dir, (int)getpid(), tid);
+  snprintf(ts->gpath, sizeof ts->gpath, "%s/hwv_thr_%d_%d.bad", scratch_dir, (int)getpid(), tid);
+  unlink(ts->shmpath); unlink(ts->xpath);
+  f = fopen(ts->gpath, "w"); if (f) { fputs(garbage_xml, f); fclose(f); }
+  ts->addr = shm_base + SHMSTRIDE * (size_t)tid;
+}
+static int ts_live(struct tstate *ts) { int s, n = 0; for (s = 0; s < NSLOT; s++) if (ts->slot[s]) n++; return n; }
+static void ts_cleanup(struct tstate *ts) {
+  int s;
+  for (s = 0; s < NSLOT; s++) if (ts->slot[s]) { hwloc_topology_destroy(ts->slot[s]); ts->slot[s] = NULL; }
+  if (ts->diff) hwloc_topology_diff_destroy(ts->diff);
+  free(ts->xbuf); ts->diff = NULL; ts->xbuf = NULL;
+  unlink(ts->shmpath); unlink(ts->xpath); unlink(ts->gpath);
+}
+static void diff_count(hwloc_topology_diff_t d, long *n, long *ncomplex) {
+  *n = *ncomplex = 0;
+  for (; d; d = d->generic.next) { ++*n; if (d->generic.type == HWLOC_TOPOLOGY_DIFF_TOO_COMPLEX) ++*ncomplex; }
+}
+static void exec_call(struct tstate *ts, const struct call *c, struct cres *r, int yieldmask) {
+  int a = c->a, b = c->b, s; const char *op = c->op; hwloc_topology_t t = (a >= 0 && a < NSLOT) ? ts->slot[a] : NULL;
+  memset(r, 0, sizeof *r); r->ret = SKIPPED; errno = 0;
+  if (!strcmp(op, "init")) { if (a < 0 || a >= NSLOT || t) return; r->ret = hwloc_topology_init(&ts->slot[a]); if (r->ret) ts->slot[a] = NULL; ts->loaded[a] = ts->adopted[a] = 0; }
+  else if (!strcmp(op, "destroy")) { if (!t) return; hwloc_topology_destroy(t); ts->slot[a] = NULL; ts->loaded[a] = ts->adopted[a] = 0; r->ret = 0; }
+  else if (!strcmp(op, "load")) {
+    int r1, r2 = -1;
+    if (!t || ts->loaded[a]) return;
+    r1 = hwloc_topology_set_synthetic(t, cvariants[(unsigned)b % 3]); r->n1 = r1;
+    hwloc_topology_set_type_filter(t, HWLOC_OBJ_MISC, HWLOC_TYPE_FILTER_KEEP_ALL);
+    if (!r1) r2 = hwloc_topology_load(t);
+    r->n2 = r2; r->ret = r1 ? r1 : r2;
+    if (!r2) { ts->loaded[a] = 1; hwloc_obj_add_info(hwloc_get_root_obj(t), "hwvmod", "0"); }
+  }
+  else if (!strcmp(op, "modify")) {
+    if (!t || !ts->loaded[a] || ts->adopted[a]) return;
+    if (b == 1) r->ret = hwloc_modify_infos(&hwloc_get_root_obj(t)->infos, HWLOC_MODIFY_INFOS_OP_REPLACE, "hwvmod", "1");
+    else if (b == 2) {
+      unsigned npu = hwloc_get_nbobjs_by_type(t, HWLOC_OBJ_PU); r->ret = 0;
+      if (npu >= 3) { hwloc_bitmap_t cs = hwloc_bitmap_dup(hwloc_topology_get_topology_cpuset(t));
+        hwloc_bitmap_clr(cs, hwloc_get_obj_by_type(t, HWLOC_OBJ_PU, npu - 1)->os_index); r->ret = hwloc_topology_restrict(t, cs, 0); hwloc_bitmap_free(cs); }
+      r->n1 = hwloc_topology_refresh(t);
+    } else { annotate(t); hwloc_topology_insert_misc_object(t, hwloc_get_root_obj(t), "m"); r->ret = hwloc_topology_refresh(t); }
+  }
+  else if (!strcmp(op, "digest")) { if (!t || !ts->loaded[a]) return; r->dg = battery(t, yieldmask); r->ret = 0; }
+  else if (!strcmp(op, "dup")) {
+    if (!t || b < 0 || b >= NSLOT || ts->slot[b]) return;
+    r->ret = hwloc_topology_dup(&ts->slot[b], t);
+    if (r->ret) ts->slot[b] = NULL; else { ts->loaded[b] = 1; ts->adopted[b] = 0; }
+  }
+  else if (!strcmp(op, "shmlen")) { size_t len = 0; if (!t) return; r->ret = hwloc_shmem_topology_get_length(t, &len, 0); r->n1 = (long)len; }
+  else if (!strcmp(op, "shmwrite")) {
+    int fd;
+    if (!t || !ts->loaded[a] || ts->adopted[a] || !ts->addr) return;
+    if (b) for (s = 0; s < NSLOT; s++) if (ts->slot[s] && ts->adopted[s]) return;      /* the range is in use */
+    fd = open(ts->shmpath, O_RDWR | O_CREAT, 0600); if (fd < 0) return;
+    r->ret = hwloc_shmem_topology_write(t, fd, 0, ts->addr, SHMLEN, b ? 0 : 1);
+    close(fd);
+  }
+  else if (!strcmp(op, "adopt")) {
+    int fd;
+    if (a < 0 || a >= NSLOT || t || !ts->addr) return;
+    fd = open(ts->shmpath, O_RDONLY | O_CREAT, 0600); if (fd < 0) return;
+    r->ret = hwloc_shmem_topology_adopt(&ts->slot[a], fd, 0, b ? ts->addr : ts->addr + 4096, SHMLEN, 0);
+    close(fd);
+    if (r->ret) ts->slot[a] = NULL; else ts->loaded[a] = ts->adopted[a] = 1;
+  }
+  else if (!strcmp(op, "diffbuild")) {
+    if (!t || b < 0 || b >= NSLOT || !ts->slot[b] || !ts->loaded[a] || !ts->loaded[b]) return;
+    if (ts->diff) { hwloc_topology_diff_destroy(ts->diff); ts->diff = NULL; }
+    r->ret = hwloc_topology_diff_build(t, ts->slot[b], 0, &ts->diff);
+    if (r->ret < 0) ts->diff = NULL;
+    diff_count(ts->diff, &r->n1, &r->n2);
+  }
+  else if (!strcmp(op, "diffdestroy")) { r->ret = ts->diff ? hwloc_topology_diff_destroy(ts->diff) : 0; ts->diff = NULL; }
+  else if (!strcmp(op, "diffexp_buf")) {
+    char *xb = NULL; int xl = 0;
+    if (!t) return;                                  /* hwloc_free_xmlbuffer wants a topology */
+    r->ret = hwloc_topology_diff_export_xmlbuffer(ts->diff, "hwvref", &xb, &xl);
+    if (!r->ret && xb) {
+      int e = errno;
+      free(ts->xbuf); ts->xbuf = malloc((size_t)xl + 1); memcpy(ts->xbuf, xb, (size_t)xl); ts->xbuf[xl] = 0; ts->xbuflen = xl;
+      r->n1 = xl; r->dg = fnv(1469598103934665603ULL, xb, (size_t)xl);
+      hwloc_free_xmlbuffer(t, xb); errno = e;
+    }
+  }
+  else if (!strcmp(op, "diffexp_file")) {
+    r->ret = hwloc_topology_diff_export_xml(ts->diff, "hwvref", a ? ts->xpath : "/nonexistent-hwv-dir/diff.xml");
+    if (!r->ret && a) ts->xfile = 1;
+  }
+  else if (!strcmp(op, "diffload_buf") || !strcmp(op, "diffload_file")) {
+    char *refname = NULL, *tmp = NULL; int file = !strcmp(op, "diffload_file");
+    if (a && !file && !ts->xbuf) return;
+    if (a == 1 && file && !ts->xfile) return;
+    if (ts->diff) { hwloc_topology_diff_destroy(ts->diff); ts->diff = NULL; }
+    if (file) r->ret = hwloc_topology_diff_load_xml(a == 1 ? ts->xpath : a == 0 ? ts->gpath : "/nonexistent-hwv-dir/missing.xml", &ts->diff, &refname);
+    else if (a == 1) r->ret = hwloc_topology_diff_load_xmlbuffer(ts->xbuf, ts->xbuflen, &ts->diff, &refname);
+    else if (a == 2) { int h = ts->xbuflen / 2; tmp = malloc((size_t)h + 1); memcpy(tmp, ts->xbuf, (size_t)h); tmp[h] = 0; r->ret = hwloc_topology_diff_load_xmlbuffer(tmp, h + 1, &ts->diff, &refname); }
+    else r->ret = hwloc_topology_diff_load_xmlbuffer(garbage_xml, (int)sizeof garbage_xml, &ts->diff, &refname);
+    { int e = errno; if (r->ret < 0) ts->diff = NULL; diff_count(ts->diff, &r->n1, &r->n2); if (!r->ret && refname) r->dg = fnvs(0, refname); if (!r->ret) free(refname); free(tmp); errno = e; }
+  }
+  else return;
+  r->err = r->ret < 0 && r->ret != SKIPPED ? errno : 0;
+}
+struct carg { int tid, sched, yieldmask, ncalls; struct call *calls; struct cres *res; struct tstate *ts; pthread_barrier_t *bar; };
+static pthread_mutex_t turn_mx = PTHREAD_MUTEX_INITIALIZER; static pthread_cond_t turn_cv = PTHREAD_COND_INITIALIZER; static int turn;
+static void *caller(void *v) {
+  struct carg *g = v; int n, k = 0;
+  my_tid = g->tid; cur_tid = g->tid;
+  pthread_barrier_wait(g->bar);
+  for (n = 0; n < g->ncalls; n++) {
+    if (g->calls[n].tid != g->tid) continue;
+    if (g->sched) { pthread_mutex_lock(&turn_mx); while (turn != n) pthread_cond_wait(&turn_cv, &turn_mx); pthread_mutex_unlock(&turn_mx); }
+    else if (((unsigned)g->yieldmask >> (k % 8)) & 1) sched_yield();
+    cur_call = k++;
+    exec_call(g->ts, &g->calls[n], &g->res[n], g->yieldmask | 1);
+    cur_call = -1;
+    if (g->sched) { pthread_mutex_lock(&turn_mx); turn = n + 1; pthread_cond_broadcast(&turn_cv); pthread_mutex_unlock(&turn_mx); }
+  }
+  cur_tid = -1;
+  return NULL;
+}
+static void out_regs(unsigned r0, unsigned r1) {
+  unsigned k;
+  out("\"reg\":[");
+  for (k = r0; k < r1; k++) out("%s[\"%s\",%lu,%lu,%d,%d]", k > r0 ? "," : "", regev[k].name, regev[k].a, regev[k].b, regev[k].tid, regev[k].call);
+  out("]");
+}
+/* one stage: what the calls returned and the registry events of the stage, logged BEFORE the topologies the histories left alive are destroyed */
+static void out_stage(const char *stage, int sched, int T, struct call *calls, struct cres *res, int ncalls, unsigned r0, unsigned r1, struct tstate *ts) {
+  int i, n, first;
+  out("{\"e\":\"calls\",\"stage\":\"%s\",\"mode\":\"%s\",\"threads\":%d,\"users0\":%d,\"prog\":[", stage, sched ? "sched" : "free", T, nlive);
+  for (i = 0; i < T; i++) {
+    out("%s[", i ? "," : ""); first = 1;
+    for (n = 0; n < ncalls; n++) if (calls[n].tid == i) { out("%s[\"%s\",%d,%d]", first ? "" : ",", calls[n].op, calls[n].a, calls[n].b); first = 0; }
+    out("]");
+  }
+  out("],\"sched\":[");
+  for (n = 0; n < ncalls; n++) out("%s%d", n ? "," : "", calls[n].tid);
+  out("],\"res\":[");
+  for (i = 0; i < T; i++) {
+    out("%s[", i ? "," : ""); first = 1;
+    for (n = 0; n < ncalls; n++) if (calls[n].tid == i) {
+      out("%s[%d,\"%s\",%ld,%ld,", first ? "" : ",", res[n].ret, errname(res[n].err), res[n].n1, res[n].n2); out_digest(res[n].dg); out("]"); first = 0; }
+    out("]");
+  }
+  out("],"); out_regs(r0, r1);
+  out(",\"live\":[");
+  for (i = 0; i < T; i++) out("%s%d", i ? "," : "", ts_live(&ts[i]));
+  out("]}"); out_end();
+}
+static void out_clean(unsigned r0, unsigned r1) { out("{\"e\":\"callsclean\","); out_regs(r0, r1); out("}"); out_end(); }
+static size_t do_calls(char *p, char **lines, size_t i, size_t nlines) {
+  char *mode = hwv_tok(&p); int T = (int)hwv_tokl(&p); unsigned seed = (unsigned)hwv_tokl(&p);
+  static struct call calls[MAXCALLS]; static struct cres ref[MAXCALLS], got[MAXCALLS]; static struct tstate ts[MAXT];
+  int ncalls = 0, n, t, k, sched = mode && !strcmp(mode, "sched");
+  pthread_t th[MAXT]; struct carg g[MAXT]; pthread_barrier_t bar; unsigned r0;
+  for (i++; i < nlines; i++) {
+    char *q = lines[i]; char *cmd = hwv_tok(&q), *op;
+    if (!cmd || !strcmp(cmd, "endcalls")) break;
+    if (strcmp(cmd, "c") || ncalls >= MAXCALLS) continue;
+    calls[ncalls].tid = (int)hwv_tokl(&q); op = hwv_tok(&q); snprintf(calls[ncalls].op, sizeof calls[ncalls].op, "%s", op ? op : "");
+    calls[ncalls].a = (int)hwv_tokl(&q); calls[ncalls].b = (int)hwv_tokl(&q);
+    if (calls[ncalls].tid >= 0 && calls[ncalls].tid < T) ncalls++;
+  }
+  if (T < 1 || T > MAXT) return i;
+  find_shm_base();
+  nregev = 0;                                  /* nobody else runs: the registry log restarts with this phase */
+  /* (1) the single-threaded reference: the histories one after the other, each from a fresh state */
+  my_tid = -1; r0 = nregev;
+  for (t = 0; t < T; t++) {
+    ts_init(&ts[t], t); cur_tid = t; k = 0;
+    for (n = 0; n < ncalls; n++) if (calls[n].tid == t) { cur_call = k++; exec_call(&ts[t], &calls[n], &ref[n], 0xff); cur_call = -1; }
+    cur_tid = -1;
+  }
+  out_stage("ref", sched, T, calls, ref, ncalls, r0, nregev, ts);
+  r0 = nregev;
+  for (t = 0; t < T; t++) ts_cleanup(&ts[t]);
+  out_clean(r0, nregev);
+  /* (2) the same histories in T threads */
+  for (t = 0; t < T; t++) ts_init(&ts[t], t);
+  turn = 0; r0 = nregev;
+  pthread_barrier_init(&bar, NULL, (unsigned)T);
+  for (t = 0; t < T; t++) { g[t].tid = t; g[t].sched = sched; g[t].yieldmask = (int)((seed >> (t % 16)) & 0xff); g[t].ncalls = ncalls; g[t].calls = calls; g[t].res = got; g[t].ts = &ts[t]; g[t].bar = &bar;
+    pthread_create(&th[t], NULL, caller, &g[t]); }
+  for (t = 0; t < T; t++) pthread_join(th[t], NULL);
+  pthread_barrier_destroy(&bar);
+  out_stage("run", sched, T, calls, got, ncalls, r0, nregev, ts);
+  r0 = nregev;
+  for (t = 0; t < T; t++) ts_cleanup(&ts[t]);
+  out_clean(r0, nregev);
+  return i;
+}
+
 static void handler(char **lines, size_t n, int beh) {
   size_t i;
   for (i = 0; i < n; i++) {
     char *p = lines[i]; char *cmd = hwv_tok(&p);
     if (!cmd) continue;
+    if (!strcmp(cmd, "calls")) { i = do_calls(p, lines, i, n); continue; }
     if (!strcmp(cmd, "reset")) { if (mainT) { hwloc_topology_destroy(mainT); mainT = NULL; nlive--; } if (!hwv_quiet) { out("{\"e\":\"Reset\",\"beh\":%d}", beh); out_end(); } }
     else if (!strcmp(cmd, "setup")) do_setup(p);
     else if (!strcmp(cmd, "adopted")) do_adopted();
@@ -283,5 +512,6 @@ static void handler(char **lines, size_t n, int beh) {
 }
 int main(int argc, char **argv) {
   if (argc < 3) { fprintf(stderr, "usage: hwv_threads <behaviours> <trace.ndjson>\n"); return 2; }
+  { char *sl = strrchr(argv[2], '/'); if (sl && (size_t)(sl - argv[2]) < sizeof scratch_dir && sl != argv[2]) { memcpy(scratch_dir, argv[2], (size_t)(sl - argv[2])); scratch_dir[sl - argv[2]] = 0; } }
   return hwv_run(argv[1], argv[2], handler);
 }
